@@ -487,6 +487,95 @@ def rule_AI13(rep, prog, srcdir):
                     sample={"class": name, "value": v})
 
 
+def rule_MP14(rep, prog):
+    rid = rep.rule("C18-MP14", "a synchronously submitted function runs with the queue it was submitted to as the current queue: wherever the library calls a client "
+                   "function that it received as its OWN parameter (the *_f entry points and their helpers), a thread-frame push for the queue dominates the call - "
+                   "the root-queue shortcut of dispatch_async_and_wait_f included - so that dispatch_get_specific / dispatch_assert_queue inside the item see that queue",
+                   floor=1)
+    n = 0
+    for fn in sorted(prog.all_functions(), key=lambda f: f.name):
+        for c in calls_named(fn, "_dispatch_client_callout"):
+            if not (len(c.ops) >= 2 and c.ops[0][0] == "a" and c.ops[1][0] == "a"):
+                continue
+            if not any(("dispatch_queue_s" in str(t_) or "dispatch_lane_s" in str(t_) or "dispatch_queue_global_s" in str(t_)) for _n, t_ in fn.params):
+                continue      # not a queue submission path (dispatch_once, apply helpers ...)
+            n += 1
+            rep.saw(fn)
+            pushes = [p_ for p_ in fn.all_insts() if p_.op == "call" and p_.callee and "thread_frame_push" in p_.callee]
+            rep.require(rid, any(fn.dominates(p_, c) for p_ in pushes), c.loc, fn.name, "client-function-called-without-queue-frame:%s" % fn.name,
+                        "%s calls the client function it was given without having pushed a thread frame for the queue: inside the item the current queue is the "
+                        "caller's - dispatch_assert_queue(q) on the queue it was submitted to traps, dispatch_get_specific returns the caller's values" % fn.name,
+                        sample={"site": c.loc})
+    if n < 1:
+        rep.unknown(rid, "no direct call of a parameter function found")
+
+
+def rule_OD15(rep, prog):
+    rid = rep.rule("C18-OD15", "the attribute decoder indexes with the pointer it ended up accepting: when _dispatch_queue_attr_to_info redirects a copy-relocated "
+                   "_dispatch_queue_attr_concurrent (outside the table, equal to entry 0) to the table, the table index is computed from the redirected pointer - an "
+                   "index computed before the redirection decodes DISPATCH_QUEUE_CONCURRENT as an arbitrary attribute", floor=1)
+    fn = prog.fn("_dispatch_queue_attr_to_info")
+    rep.saw(fn)
+    fix = calls_named(fn, "memcmp")
+    idx = []
+    for pi in fn.all_insts():
+        if pi.op != "ptrtoint":
+            continue
+        if any(u.op == "sub" for u in fn.users(pi)):
+            idx.append(pi)
+    if not idx:
+        rep.unknown(rid, "_dispatch_queue_attr_to_info: table index computation (pointer difference) not found")
+        return
+    for pi in idx:
+        P = fn.inst(pi.ops[0])
+        from_param_only = tuple(pi.ops[0][:2]) == ("a", 0)
+        merges_table = P is not None and P.op == "phi" and any(v[0] == "g" for v, frm in P.ops)
+        ok = (not fix) or merges_table or not from_param_only
+        rep.require(rid, ok, pi.loc, fn.name, "attribute-index-from-unredirected-pointer",
+                    "_dispatch_queue_attr_to_info computes the table index from the attribute pointer as passed in although it can redirect that pointer afterwards (the "
+                    "copy-relocated concurrent attribute of a non-PIE client): the decoder then runs on an out-of-table index", sample={"site": pi.loc, "fixup": len(fix)})
+
+
+def rule_TB16(rep, prog):
+    rid = rep.rule("C18-TB16", "every digit of the attribute index fits the field that carries it: in _dispatch_queue_attr_to_info a digit taken modulo R is stored through a "
+                   "bit-field mask of at least R values, and the negated digit (the relative priority, 0 .. -(R-1)) through a signed field of at least 2R values - a "
+                   "narrower carrier wraps relative priorities -9 .. -15 to positive values and the encoder then indexes another row of the table", floor=5)
+    fn = prog.fn("_dispatch_queue_attr_to_info")
+    rep.saw(fn)
+    n = 0
+    for a in fn.all_insts():
+        if a.op != "and" or a.ops[1][0] != "c":
+            continue
+        M = a.ops[1][1]
+        if M & (M + 1):
+            continue                      # not a low-bits mask
+        v = fn.inst(a.ops[0])
+        neg = False
+        seen = 0
+        while v is not None and v.op in ("trunc", "zext", "sext", "sub", "xor", "icmp") and seen < 6:
+            seen += 1
+            if v.op == "sub":
+                if not (v.ops[0][0] == "c" and v.ops[0][1] == 0):
+                    break
+                neg = True
+                v = fn.inst(v.ops[1])
+            elif v.op in ("xor", "icmp"):
+                v = fn.inst(v.ops[0])
+            else:
+                v = fn.inst(v.ops[0])
+        if v is None or v.op != "urem" or v.ops[1][0] != "c":
+            continue
+        R = v.ops[1][1]
+        n += 1
+        need = 2 * R if neg else R
+        rep.require(rid, M + 1 >= need, a.loc, fn.name, "attribute-digit-truncated:%d" % R,
+                    "_dispatch_queue_attr_to_info stores a %sdigit of radix %d through a %d-valued field: values beyond the field wrap, the decoded attribute info differs "
+                    "from what the index denotes and _dispatch_queue_attr_from_info maps it to a different table row (wrong QoS class / relative priority reported, "
+                    "depending on the order of the attribute constructors)" % ("negated " if neg else "", R, M + 1), sample={"radix": R, "field_values": M + 1, "signed": neg})
+    if n < 5:
+        rep.unknown(rid, "fewer than 5 digit-to-field stores recognised in the attribute decoder (%d)" % n)
+
+
 def rule_TB9(rep, prog, srcdir):
     rid = rep.rule("C18-TB9", "which queues carry queue-specific data is a fixed property of the queue's TYPE: _dispatch_queue_admits_specific is a function of do_type "
                    "alone and admits serial / concurrent queues, the main queue and workloops, and no manager or run-loop queue - it gives the same answer before "
@@ -742,6 +831,12 @@ def run(rep, tier="quick", srcdir=None, only=None):
         rule_TB7(rep, prog)
     if want("C18-MP12"):
         rule_MP12(rep, prog)
+    if want("C18-MP14"):
+        rule_MP14(rep, prog)
+    if want("C18-OD15"):
+        rule_OD15(rep, prog)
+    if want("C18-TB16"):
+        rule_TB16(rep, prog)
     if want("C18-AI13"):
         rule_AI13(rep, prog, srcdir)
     if want("C03-MP7"):
